@@ -32,9 +32,12 @@ func RunC11T(r *Run) {
 		r.Harness("C11T needs the virtual-time worker binary")
 	}
 	w := BuildWorld(r, sourceProfile("C11"))
-	nscen := 2 + r.Choose("nscen", 3)
-	for s := 0; s < nscen; s++ {
+	for s := 0; s < 5; s++ {
 		r.T.Mark()
+		// the tape decides after each scenario whether another follows (0 = stop; an exhausted tape stops)
+		if s > 0 && r.Choose("another-scenario", 3) == 0 {
+			break
+		}
 		n := w.pickSource("src")
 		if n == nil {
 			break
